@@ -139,7 +139,7 @@ class ProxyProtocolV1(object):
         try:
             packed = socket.inet_pton(addr_family, ip_string.decode('ascii'))
             return socket.inet_ntop(addr_family, packed)
-        except (UnicodeDecodeError, socket.error):
+        except (ValueError, socket.error):
             msg = 'Invalid proxy protocol {0} IP format'.format(which)
             raise AssertionError(msg)
 
@@ -232,8 +232,11 @@ class ProxyProtocolV2(object):
             'Invalid proxy protocol v2 signature'
         assert data[12] & 0xf0 == 0x20, 'Invalid proxy protocol version'
         command = cls.__commands.get(data[12] & 0x0f)
+        assert command is not None, 'Invalid proxy protocol command'
         family = cls.__families.get(data[13] & 0xf0)
         protocol = cls.__protocols.get(data[13] & 0x0f)
+        assert protocol is not None or data[13] & 0x0f == 0, \
+            'Invalid proxy protocol transport protocol'
         addr_len = struct.unpack('!H', data[14:16])[0]
         return command, family, protocol, addr_len
 
